@@ -21,4 +21,3 @@ MANIFEST = {
             "of what is exercised: a violation can come from the broker side. Transaction timeouts are not generated yet.",
     "technique": "Lean 4 proof over a history monitor with history correspondence against kgo x kfake in synctest bubbles",
 }
-PENDING = True
